@@ -45,6 +45,7 @@ def run(env, tier, seed, broken=None):
         texts += ['f(%s);' % nums, '%s %s(%s);' % (PRINT, MAX, nums), 'f(1)(%s);' % nums, '%s [%s];' % (PRINT, nums), 'x = [%s][0];' % nums,
                   '%s {%s};' % (PRINT, ', '.join('k%d: %d' % (i, i) for i in range(1, np + 1))), '%s %s;' % (VAR, ', '.join('v%d = %d' % (i, i) for i in range(1, np + 1))),
                   '{ ' + '1; ' * np + '}', 'f(%s' % nums, '[%s' % nums]
+    texts += ['\ufeff%s 1;' % PRINT, '\ufeff', '\ufeffx', '\ufeff\n1;', '1;\ufeff', '\ufeff\ufeff1;', '\u200b1;', '\ufffe1;']
     for sp in ['\x00', '\u00a0', '\u2028', '\x0b']:
         texts += ['%s 1; // c %s (\n%s 2;' % (PRINT, sp, PRINT), '%s 1; /* c %s ( */ %s 2;' % (PRINT, sp, PRINT), '%s "a%sb";' % (PRINT, sp), 'x =%s1;' % sp, 'x = %s1;' % sp, 'x = 1 %s;' % sp]
     # every built-in name and every keyword in every binding position (declarator 1..3 of a list, for-initialiser,
@@ -130,7 +131,8 @@ def run(env, tier, seed, broken=None):
     cases = []
     for i, b in enumerate([b'\xff', b'\xc3(', b'a\x00b;', b'\xe0\xa6', PRINT.encode() + b' "\xff";\n', b'\xf0\x9f\x98\x80;', b'\xed\xa0\x80']):
         cases.append({'id': 'u%d' % i, 'src': b})
-    bad_tail = ['@', '1 +;', '"open', '/* open', VAR + ' 1;', ') ;', LEN + ' = ;', '1 = 2;', FUN + ' ' + LEN + '() {}', VAR + ' a = 1\n;']
+    cases.append({'id': 'u90', 'src': '\ufeff%s "first";\n' % PRINT}); cases.append({'id': 'u91', 'src': '\ufeff'}); cases.append({'id': 'u92', 'src': '%s 1;\n\ufeff%s 2;\n' % (PRINT, PRINT)})
+    bad_tail = ['@', '\ufeff', '\u200b', '\u00a0', '1 +;', '"open', '/* open', VAR + ' 1;', ') ;', LEN + ' = ;', '1 = 2;', FUN + ' ' + LEN + '() {}', VAR + ' a = 1\n;']
     for i, t in enumerate(bad_tail):
         cases.append({'id': 'v%d' % i, 'src': '%s "first";\n%s %s("probe>");\n\n%s\n%s "last";\n' % (PRINT, PRINT, INPUT, t, PRINT), 'stdin': 'x\n'})
     mm2, ri, rm = diff_runs(env, cases, need_oracle=False)
